@@ -30,6 +30,13 @@ PROPS = {
         "rule": FW_RULE % "a SendPadding action was returned by a machine that has a padding budget or fraction (scenario class: 1-4 padding machines with budgets 0..3 and fractions from {0,1e-9,1/3,0.5,0.75,1-1e-9,1} on machine and framework; single-event calls interleaving NormalSent, PaddingSent for own/other/unknown ids and all other events)",
         "assumptions": ["fewer than 2^53 packets reported (exact u64->f64 conversion)"],
     },
+    "C03": {
+        "sub": "fw",
+        "n": {"quick": 4000, "thorough": 300000},
+        "coq_sample": {"quick": 20, "thorough": 200},
+        "rule": FW_RULE % "a BlockOutgoing action was returned (scenario class: 1-3 blocking machines with all replace/bypass combinations, allowed_blocked_microsec in {0,1,1000,1e6,u64::MAX}, fractions on machine and framework; single-event calls with BlockingBegin for any id, unpaired/repeated BlockingEnd; virtual-clock steps 0, tiny, huge and backwards)",
+        "assumptions": ["virtual clock; exact-rational corollary for values below 2^53 us"],
+    },
     "C04": {
         "sub": "fw",
         "n": {"quick": 3000, "thorough": 200000},
